@@ -101,7 +101,7 @@ PROPS = {
         "timeout": 1500,
     },
     "C03": {
-        "lean_modules": ["JrpcProofs.Props.C03", "JrpcProofs.Lemmas.Corr", "JrpcProofs.Facts.Corr", "JrpcProofs.Facts.Frames", "JrpcProofs.Facts.Writers", "JrpcProofs.Facts.Keepalive", "JrpcProofs.Facts.OneShot"],
+        "lean_modules": ["JrpcProofs.Props.C03", "JrpcProofs.Lemmas.Corr", "JrpcProofs.Facts.Corr", "JrpcProofs.Facts.Frames", "JrpcProofs.Facts.Writers", "JrpcProofs.Facts.Keepalive", "JrpcProofs.Facts.OneShot", "JrpcProofs.Trans.Sweep"],
         "assumptions": [
             "hooks only delay goroutines; two log entries written by different goroutines around one channel rendezvous may come in either order and are reconciled by the replayer (tau steps are counted in the evidence)",
             "ids of calls that are inside doRequest at the same time differ (id counter; int64 to float64 keys are injective below 2^53 calls)",
@@ -121,7 +121,7 @@ PROPS = {
         "timeout": 2400,
     },
     "C18": {
-        "lean_modules": ["JrpcProofs.Props.C18", "JrpcProofs.Lemmas.Corr", "JrpcProofs.Facts.Corr", "JrpcProofs.Props.Sweep", "JrpcProofs.Facts.Sweep", "JrpcProofs.Facts.OneShot", "JrpcProofs.Facts.Stream"],
+        "lean_modules": ["JrpcProofs.Props.C18", "JrpcProofs.Lemmas.Corr", "JrpcProofs.Facts.Corr", "JrpcProofs.Props.Sweep", "JrpcProofs.Facts.Sweep", "JrpcProofs.Facts.OneShot", "JrpcProofs.Facts.Stream", "JrpcProofs.Trans.Sweep"],
         "assumptions": [
             "hooks only delay goroutines; two log entries written by different goroutines around one channel rendezvous may come in either order and are reconciled by the replayer (tau steps are counted in the evidence)",
             "ids of calls that are inside doRequest at the same time differ (id counter; int64 to float64 keys are injective below 2^53 calls)",
@@ -158,7 +158,7 @@ PROPS = {
         "timeout": 1500,
     },
     "C15": {
-        "lean_modules": ["JrpcProofs.Props.C15", "JrpcProofs.Props.C06", "JrpcProofs.Facts.Cancel", "JrpcProofs.Facts.Corr", "JrpcProofs.Facts.Params", "JrpcProofs.Facts.Reverse", "JrpcProofs.Facts.Stream"],
+        "lean_modules": ["JrpcProofs.Props.C15", "JrpcProofs.Props.C06", "JrpcProofs.Facts.Cancel", "JrpcProofs.Facts.Corr", "JrpcProofs.Facts.Params", "JrpcProofs.Facts.Reverse", "JrpcProofs.Facts.Stream", "JrpcProofs.Trans.Sweep"],
         "assumptions": [
             "the goroutine model (main loop, reader, executor, forwarder, pinger, response writers) is tied by regenerated skeletons and by the goroutine profile (pprof labels) after each scenario, not by trace replay",
             "handleWS closes the socket after handleWsConn returns; a blocked NextReader then fails; the handlers return once cancelled (reaction time is a scenario parameter)",
